@@ -258,15 +258,20 @@ impl RegExpBuilder {
 /// Replaces Rust Unicode escape sequences to Python Unicode escape sequences.
 fn replace_unicode_escape_sequences(regexp: String) -> String {
     lazy_static! {
-        static ref ESCAPE_SEQUENCE: Regex = Regex::new(r"\\u\{([0-9a-f]{1,6})\}").unwrap();
+        static ref ESCAPE_SEQUENCE: Regex =
+            Regex::new(r"\\\\|\\u\{([0-9a-f]{1,6})\}").unwrap();
     }
     ESCAPE_SEQUENCE
-        .replace_all(&regexp, |caps: &Captures| {
-            let code_point = u32::from_str_radix(&caps[1], 16).unwrap();
-            if code_point <= 0xffff {
-                format!("\\u{:04x}", code_point)
-            } else {
-                format!("\\U{:08x}", code_point)
+        .replace_all(&regexp, |caps: &Captures| match caps.get(1) {
+            // an escaped backslash: what follows it, e.g. `u{2}`, is not an escape sequence
+            None => caps[0].to_string(),
+            Some(digits) => {
+                let code_point = u32::from_str_radix(digits.as_str(), 16).unwrap();
+                if code_point <= 0xffff {
+                    format!("\\u{:04x}", code_point)
+                } else {
+                    format!("\\U{:08x}", code_point)
+                }
             }
         })
         .to_string()
